@@ -226,7 +226,7 @@ func c17Clock(c *Ctx, cs *Case) {
 
 func c17Run(c *Ctx) {
 	// 1. every built-in x 0..4 arguments x argument kinds
-	kinds := []string{"nil", True(), "2", "(-1.5)", `"s"`, "[]", "[1, 2]", "{}", "({k: 1})", "fq", B["abs"], "0"}
+	kinds := []string{"nil", True(), "2", "(-1.5)", `"s"`, "[]", "[1, 2]", "{}", "({k: 1})", "fq", B["abs"], "0", "[[3, 1, 2]]", "[[]]", "[[[7]]]", "(10 ** 400)"}
 	var nicks []string
 	for _, n := range []string{"len", "append", "remove", "delete", "keys", "values", "abs", "sqrt", "pow", "sin", "cos", "tan", "min", "max", "round", "input", "clock"} {
 		nicks = append(nicks, n)
@@ -329,7 +329,7 @@ func c17Run(c *Ctx) {
 		}
 	}
 	// 3. min / max over all permutations of small multisets, list and array call forms
-	pool := []string{"(-3)", "(-0.5)", "0", "2", "2", "7", "(10 ** 400)", "(-(10 ** 400))", "1000000", "(7 & 3)"}
+	pool := []string{"(-3)", "(-0.5)", "0", "2", "2", "7", "(10 ** 400)", "(-(10 ** 400))", "1000000", "(7 & 3)", "(10 ** 500)", "(-(10 ** 500))", "1" + strings.Repeat("0", 308)}
 	var perms func(cur []int, depth int)
 	perms = func(cur []int, depth int) {
 		if len(cur) > 0 && c.Mine() {
@@ -359,7 +359,7 @@ func c17Run(c *Ctx) {
 	}
 	perms(nil, 0)
 	// misuse of min/max
-	for _, src := range []string{Print(BI("min")), Print(BI("max")), Print(BI("min", "[]")), Print(BI("max", "[]")), Print(BI("min", "[1, 2]", "3")), Print(BI("max", "[1, 2]", "[3]")), Print(BI("min", "1", "nil")), Print(BI("max", "[1, "+True()+"]")), Print(BI("min", `[1, "x"]`)), Print(BI("max", "{}"))} {
+	for _, src := range []string{Print(BI("min")), Print(BI("max")), Print(BI("min", "[]")), Print(BI("max", "[]")), Print(BI("min", "[1, 2]", "3")), Print(BI("max", "[1, 2]", "[3]")), Print(BI("min", "1", "nil")), Print(BI("max", "[1, "+True()+"]")), Print(BI("min", `[1, "x"]`)), Print(BI("max", "{}")), Print(BI("min", "[[3, 1, 2]]")), Print(BI("max", "[[[7]]]")), Print(BI("min", "[[1], [2]]")), Print(BI("max", "[[]]")), Print(BI("min", "[1, [2]]"))} {
 		if c.Mine() {
 			c17Judge(c, &Case{Gen: "min-max-misuse", Src: Print(`"b"`) + "\n" + src + "\n" + Print(`"after"`) + "\n", X: map[string]string{"fn": "minmax", "nargs": "x"}})
 		}
@@ -375,7 +375,7 @@ func c17Run(c *Ctx) {
 func init() {
 	register(&CheckDef{
 		ID:   "C17",
-		Rule: "programs: every built-in (17) x 0-2 arguments over every combination of 12 argument kinds (nil, boolean, numbers, non-numeric string, arrays, objects, user function, built-in) and seeded samples with 3-4 arguments, with prints before and after (value-or-fault, category, line, nothing after a fault, no built-in after a fault: hook event monitor); numeric arguments for abs/sqrt/sin/cos/tan/round over 46 boundary values and seeded random doubles by bit pattern in batches of 80 (abs, sqrt, round exact — sqrt additionally checked against exact squares of the neighbouring midpoints, round against exact big-rational half-away-from-zero; sin/cos/tan within 2 ulp of the platform library); ঘাত(a,b) and a ** b printed side by side and compared byte for byte; min/max over every arrangement of up to 3 (quick) / 4 (thorough) distinct entries of a 10-value pool in list and array call forms; min/max misuse; ক্লক() against a causal wall-clock bracket taken around the child process. Non-trivial = distinct decided program.",
+		Rule: "programs: every built-in (17) x 0-2 arguments over every combination of 16 argument kinds (nil, boolean, numbers, non-numeric string, arrays, objects, user function, built-in) and seeded samples with 3-4 arguments, with prints before and after (value-or-fault, category, line, nothing after a fault, no built-in after a fault: hook event monitor); numeric arguments for abs/sqrt/sin/cos/tan/round over 46 boundary values and seeded random doubles by bit pattern in batches of 80 (abs, sqrt, round exact — sqrt additionally checked against exact squares of the neighbouring midpoints, round against exact big-rational half-away-from-zero; sin/cos/tan within 2 ulp of the platform library); ঘাত(a,b) and a ** b printed side by side and compared byte for byte; min/max over every arrangement of up to 3 (quick) / 4 (thorough) distinct entries of a 10-value pool in list and array call forms; min/max misuse; ক্লক() against a causal wall-clock bracket taken around the child process. Non-trivial = distinct decided program.",
 		Assumptions: []string{"sin/cos/tan/pow are compared with Go's math package on the same platform within 2 ulp ('to the accuracy of the platform's math library')", "numeric-looking strings as numeric arguments and NaN / mixed signed zeros in min/max are out of domain", "the clock bracket has 2 s slack; a clock step during the run would make that case wrong (not observed)"},
 		Run:         c17Run,
 		Judge:       c17Judge,
